@@ -276,6 +276,55 @@ def r04_9(prog: Program, rep):
            and src.index("_bound_read_callables(") < src.index("PackStreamCopier(") if "PackStreamCopier(" in src else False, "", at.node.lineno)
 
 
+def r04_10(prog: Program, rep):
+    """A rejected pack leaves no temporary file: for every tempfile.mkstemp() of the disk store's ingestion routines, each
+    exceptional way out of the routine (or of the commit closure it hands out) passes the removal of that path.  The
+    exception edge of the hand-over to _complete_pack is followed as well: its own rollback (R04.3) only covers what it
+    created itself."""
+    m = prog.module(OS_PY)
+    n = 0
+    for q, f in sorted(m.funcs.items()):
+        if ".<locals>." in q:
+            continue
+        for a in [x for x in ast.walk(f.node) if isinstance(x, ast.Assign) and isinstance(x.value, ast.Call) and dotted(x.value.func) == "tempfile.mkstemp"
+                  and m.enclosing_func(x) is f and isinstance(x.targets[0], ast.Tuple) and len(x.targets[0].elts) == 2]:
+            pv = x_.id if isinstance((x_ := a.targets[0].elts[1]), ast.Name) else None
+            if pv is None:
+                continue
+            closures = [fn for qq, fn in m.funcs.items() if qq.startswith(q + ".<locals>.") and fn.name == "commit"]
+            targets = closures or [f]
+            for t in targets:
+                n += 1
+                g = cfg_of(prog, t)
+                rm = {i for i, nd in g.nodes.items() for c in node_calls(nd)
+                      if (dotted(c.func) in ("os.remove", "os.unlink") or callee_name(c) == "_remove_readonly") and c.args
+                      and isinstance(c.args[0], ast.Name) and c.args[0].id == pv}
+                if t is f:
+                    mk = g.nodes_containing(a.value)
+                    start = [b for i in mk for b, l in g.succ[i] if l not in EXC_LABELS]
+                else:
+                    start = [g.entry]
+                BENIGN = {"tell", "seek", "suppress", "fileno", "close"}
+
+                def edge_ok(a_, b_, l_, g=g):
+                    # exception edges of bookkeeping calls on the local file object and of entering suppress() are not failures
+                    # of the ingestion
+                    if l_ not in EXC_LABELS:
+                        return True
+                    nd = g.nodes[a_]
+                    cs = node_calls(nd)
+                    if nd.kind in ("with_enter", "with_exit_ok", "with_exit_exc"):
+                        ce = nd.ast.items[nd.info].context_expr
+                        return not (isinstance(ce, ast.Call) and callee_name(ce) == "suppress")
+                    return not (cs and all(callee_name(c) in BENIGN for c in cs))
+                bad = must_pass(g, [g.exit_raise], rm, start=start, edge_ok=edge_ok)
+                rep.ob("R04.10", OS_PY, t.qual, f"every failing exit removes the temporary file `{pv}`", bool(rm) and not bad,
+                       "a pack that is rejected while it is verified, indexed or completed leaves its temporary file behind in the "
+                       "object directory", t.node.lineno, lines(g, path(g, start, g.exit_raise, avoid=rm, edge_ok=edge_ok)) if bad else [])
+    if n < 2:
+        raise AnalysisError(f"expected >= 2 mkstemp-based ingestion routines in object_store.py, found {n}")
+
+
 def r04_5(prog: Program, rep):
     n = 0
     for m in prog.modules.values():
@@ -440,6 +489,7 @@ def run(prog: Program, rep, tier="quick"):
     rep.rule("R04.5", "every decompress call passes an output bound; zlib chunk readers agree; ofs base offset zero-checked")
     rep.rule("R04.6", "object names in indexes come from hashing content")
     rep.rule("R04.7", "delta-chain walk is cycle guarded")
+    rep.rule("R04.10", "RELEASE-ON-EXIT for temporary pack files: removed on every exceptional exit of the ingestion routine / commit closure")
     rep.rule("R04.9", "input-size cap: every read callable handed on by _bound_read_callables counts what it reads")
     rep.rule("R04.8", "stored checksums are verified on read")
     rep.not_decided += ["that every corrupt byte is noticed (zlib/SHA do that at run time)", "promptness",
@@ -464,6 +514,7 @@ def run(prog: Program, rep, tier="quick"):
     if not kept:
         raise AnalysisError("R04.8: the packed-refs cache obligation was not produced")
     r04_9(prog, rep)
+    r04_10(prog, rep)
     from sa.common import alias_guard
     alias_guard(prog, rep, "R04.2", {"add_pack"})
     rep.floor("R04.1", 4)
